@@ -8,7 +8,7 @@ func init() {
 		"C02": "spancheck: where a gff reader rejects a line by comparing the parsed start and end columns, the normal form of the test is end - start1 < 0 (emptiness of [start1-1, end)). linelimit: no bed/gff reader obtains its lines from a bufio.Scanner with the default 64 KiB token limit.",
 		"C03": "recovercover: from bed/gff Reader.Read every call path to a package function containing an explicit panic passes a function that defers handlePanic. arrayrange: a subscript of a fixed-size array in package alphabet that is an unguarded affine function of one small-typed value (a byte, an int8 score) takes every value of its exact interval; the interval must lie inside the array.",
 		"C04": "linelimit: as C02, for all four readers.",
-		"C06": "parallelidx: a loop in Compose that ranges over one slice and indexes another with the same counter requires the ranged slice to be make([]T, len(other)) (or vice versa), not a list built by conditional appends.",
+		"C06": "parallelidx: a loop in Compose that ranges over one slice and indexes another with the same counter requires the ranged slice to be make([]T, len(other)) (or vice versa), not a list built by conditional appends. trimwindow: in Trim the returned start is initialised from q.Start() and takes new values only at the join where the returned end does (the start of a window is committed with its end).",
 		"C07": "flagcases: every path through IsFlush's row loop to the next row carries, for the start and for the end, the unset-flag edge or the equal-coordinate edge. fillwatermark: the prefix-doubling copy loops of Letter.Repeat/QLetter.Repeat end only on watermark >= len(r).",
 		"C08": "tablezero: the DP table (the slice stored into at i*c+j) is a fresh make() or explicitly cleared. argmaxlayer: where the traceback chooses its start layer at the final cell it does so by a running maximum (comparison against the best so far), not by two comparisons against the same third layer.",
 		"C09": "emitnotscore: no emission of a finished block in a traceback is conditional on the block's accumulated score being non-zero. tablezero: as C08.",
